@@ -260,13 +260,100 @@ func runC20(c *Ctx, w *World, r *Report) {
 						into = append(into, l)
 					}
 				}
+				// header sizes written as constants (const block instead of variables) show up as the constant part of
+				// the returned sum: the constant carried by each alternative of the result, loop accumulators unfolded
+				// to their initial value
+				constPart := func() (int64, bool) {
+					fa := w.FA(sizeof)
+					var base func(L Lin, depth int) (int64, bool)
+					base = func(L Lin, depth int) (int64, bool) {
+						tot := L.K
+						for atom, cf := range L.T {
+							v := fa.AtomValue(atom)
+							if p, ok := v.(*ssa.Phi); ok && isLoopHeaderPhi(p) && depth < 4 {
+								for i, e := range p.Edges {
+									if !p.Block().Dominates(p.Block().Preds[i]) {
+										if b, ok := base(fa.Lin(e), depth+1); ok {
+											tot += cf * b
+										}
+										break
+									}
+								}
+							}
+						}
+						return tot, true
+					}
+					// alternatives of the result within this specialisation: merges take only the edges that come from
+					// blocks of the slice
+					var alts func(v ssa.Value, depth int) []Lin
+					alts = func(v ssa.Value, depth int) []Lin {
+						L := fa.Lin(v)
+						if depth > 6 {
+							return []Lin{L}
+						}
+						for atom, cf := range L.T {
+							p, ok := fa.AtomValue(atom).(*ssa.Phi)
+							if !ok || isLoopHeaderPhi(p) {
+								continue
+							}
+							rest := L.clone()
+							delete(rest.T, atom)
+							var out []Lin
+							for i, e := range p.Edges {
+								pred := p.Block().Preds[i]
+								if !slice[pred] {
+									continue
+								}
+								// the edge itself must be one the specialisation takes
+								if ifi, ok := pred.Instrs[len(pred.Instrs)-1].(*ssa.If); ok && len(pred.Succs) == 2 {
+									if val, known := evalKindCond(ifi.Cond, recv, k); known {
+										taken := pred.Succs[1]
+										if val {
+											taken = pred.Succs[0]
+										}
+										if taken != p.Block() {
+											continue
+										}
+									}
+								}
+								for _, sub := range alts(e, depth+1) {
+									out = append(out, rest.addScaled(sub, cf))
+								}
+							}
+							if len(out) > 0 && len(out) <= 16 {
+								return out
+							}
+							return []Lin{L}
+						}
+						return []Lin{L}
+					}
+					var first int64
+					have := false
+					for _, L := range alts(ret.Results[0], 0) {
+						b, _ := base(L, 0)
+						if have && b != first {
+							return 0, false
+						}
+						first, have = b, true
+					}
+					return first, have
+				}
 				if !hasHdr {
 					if len(into) > 0 {
 						badH = fmt.Sprintf("kind %s has no header but package variable %s is added into the sum returned at %s", kn, into[0].g.Name(), w.InstrPos(ret))
+					} else if c, ok := constPart(); ok && c != 0 {
+						badH = fmt.Sprintf("kind %s has no header but the constant %d is added into the sum returned at %s", kn, c, w.InstrPos(ret))
 					}
 					continue
 				}
 				if len(into) == 0 {
+					if c, ok := constPart(); ok && c == want {
+						okFact = fmt.Sprintf("header constant %d = Sizeof(%s header)", c, strings.ToLower(kn))
+						continue
+					} else if ok && c != 0 {
+						badH = fmt.Sprintf("header added for kind %s is the constant %d, but a %s header is %d bytes in this configuration", kn, c, strings.ToLower(kn), want)
+						continue
+					}
 					badH = fmt.Sprintf("kind %s must add its header into the sum, the return at %s adds none", kn, w.InstrPos(ret))
 					continue
 				}
@@ -684,7 +771,7 @@ func init() {
 		Explain: "E2 finite-enum specialisation (DESIGN.md 3/E2): size.sizeof is partitioned by the 23 reflect kinds the property names; each specialisation is inspected for reachability of panic, for the header variable added, and for the accessors feeding the recursion. Decided: every kind is handled, headers are right per kind and configuration, the recursion covers every part, Stat's header equals Of. This pins additivity per kind; nothing numeric is executed.",
 		NotDec:  []string{"cyclic values (outside the property)", "that reflect's accessors return what their documentation says (trusted)"},
 		Trusted: []string{"go/ssa construction", "reflect.Value accessor contracts (Len/Index/MapKeys/MapIndex/Elem/Field/NumField)", "types.Sizes of the configuration (gc sizes)"},
-		Quick:   []Config{cfgDefault}, Thorough: []Config{cfgDefault, cfg386, cfgArm64},
+		Quick:   []Config{cfgDefault, cfg386}, Thorough: []Config{cfgDefault, cfg386, cfgArm64},
 		Run: runC20,
 	})
 }
